@@ -1603,6 +1603,35 @@ func (r *runner) runVCSubject(g *gen, subject map[string]interface{}, v5 bool, a
 
 	sites := locate(cs, s)
 
+	// the issuance through the model: subject, the other members of the JWT payload and of the credential
+	without := func(m map[string]interface{}, keys ...string) map[string]interface{} {
+		c := map[string]interface{}{}
+		for k, x := range m {
+			c[k] = x
+		}
+
+		for _, k := range keys {
+			delete(c, k)
+		}
+
+		return c
+	}
+
+	oTerm := fmt.Sprintf("{| o_v5 := %s; o_alg := %d%%N; o_structured := true; o_decoys := 0%%nat; o_nonsd := [[SKey \"id\"]]; o_always := []; o_recursive := []; o_iss := \"\"; o_cnf := None |}",
+		hx.CoqBool(v5), alg)
+	outerT, vcmT := "", "[]"
+
+	if _, wrapped := payload["vc"].(map[string]interface{}); wrapped {
+		outerT = s.members(without(payload, "vc"))
+		vcmT = s.members(without(vcObj, "credentialSubject", common.SDAlgorithmKey))
+	} else {
+		outerT = s.members(without(payload, "credentialSubject", common.SDAlgorithmKey))
+	}
+
+	r.put(&hx.Record{Case: sc, Class: fmt.Sprintf("vc|issue|%v|%d", v5, alg), Dist: append([]string{"vc-issue"}, dist...),
+		Coq:      fmt.Sprintf("CIssueVC %s %s %s %s %s %s", oTerm, newSym(alg).members(plain(subjJSON).(map[string]interface{})), outerT, vcmT, s.val(payload, false), s.discs(discs)),
+		Observed: map[string]interface{}{"payload": payload, "disclosures": len(discs)}})
+
 	var real []string
 
 	for _, d := range discs {
@@ -1632,6 +1661,8 @@ func (r *runner) runVCSubject(g *gen, subject map[string]interface{}, v5 bool, a
 			pres = strings.Split(cfi, common.CombinedFormatSeparator)[0]
 		}
 
+		shown := common.ParseCombinedFormatForPresentation(pres).Disclosures
+		vnow := time.Now()
 		out, verr := verifier.Parse(pres, verifier.WithSignatureVerifier(pIssuer.ver))
 		if verr != nil {
 			fail("vc-honest-rejected", verr.Error())
@@ -1655,6 +1686,9 @@ func (r *runner) runVCSubject(g *gen, subject map[string]interface{}, v5 bool, a
 		expObj, _ := prune(plain(subjJSON), nil, hidden)
 		rec := &hx.Record{Case: sc, Class: fmt.Sprintf("vc|verify|%v|n=%d|sel=%d", v5, len(real), len(chosen)), Dist: append([]string{"vc-verify"}, dist...),
 			Observed: map[string]interface{}{"subject": got, "expected": expObj}}
+		// the whole VC-form payload (v2: _sd_alg and the digests inside the "vc" claim) through the model's verifier
+		rec.Coq = fmt.Sprintf("CVerify {| vo_required := false; vo_nonce := \"\"; vo_aud := \"\"; vo_now := (%d)%%Z; vo_leeway := 60%%Z |} {| p_sig_ok := true; p_payload := %s; p_discs := %s; p_hb := None |} true %s",
+			vnow.Unix(), s.val(payload, false), s.discs(shown), s.val(plain(out), false))
 
 		if !reflect.DeepEqual(expObj, interface{}(got)) {
 			rec.Oracle = "fail"
@@ -1743,6 +1777,19 @@ func (r *runner) runVCSubject(g *gen, subject map[string]interface{}, v5 bool, a
 		expObj = removeEmptyObjects(expObj) // CreateDisplayCredential clears empty objects of the subject
 		rec := &hx.Record{Case: sc, Class: fmt.Sprintf("vc|display|%v|n=%d|given=%d", v5, len(real), len(given)), Dist: append([]string{"vc-display"}, dist...),
 			Observed: map[string]interface{}{"subject": got, "expected": expObj, "given": given}}
+
+		if got != nil {
+			// filterDisclosureList: every disclosure carrying one of the given names (a name may occur at several sites)
+			var used []string
+
+			for _, d := range real {
+				if inName[s.parsed[d].name] {
+					used = append(used, d)
+				}
+			}
+
+			rec.Coq = fmt.Sprintf("CDisplay %d%%N %s %s %s", alg, s.val(cs, false), s.discs(used), s.val(got, false))
+		}
 
 		if !reflect.DeepEqual(expObj, interface{}(got)) {
 			rec.Oracle = "fail"
@@ -2018,7 +2065,7 @@ func main() {
 	rng := hx.NewRng(args.Seed)
 	thorough := args.Tier == "thorough"
 
-	nExh, nAtt, nRand := 120, 100, 300
+	nExh, nAtt, nRand := 120, 130, 300
 	if thorough {
 		nExh, nAtt, nRand = 400, 400, 2500
 	}
@@ -2104,7 +2151,7 @@ func main() {
 
 	for i := 0; i < nVC; i++ {
 		g := &gen{r: rng.Fork(uint64(170000 + i))}
-		(&runner{tr: tr, kind: "vc", coq: false}).runVC(g, i%2 == 1, []int{256, 384, 512}[i%3])
+		(&runner{tr: tr, kind: "vc", coq: true}).runVC(g, i%2 == 1, []int{256, 384, 512}[i%3])
 	}
 
 	// 3. larger random trees, random parent-closed selections (direct oracle; every 3rd through Coq)
